@@ -11,7 +11,7 @@ from props.slicing_kernels import kernels  # noqa: F401  (same traced kernels as
 ID = "C02"
 N_CASES = {"quick": 240, "thorough": 5000, "search": 2500}
 SHARD = 60
-DEFINITIONAL = ["C02_slice_empty_inputs", "C02_dtypes_without_conversion"]  # the model evaluated on empty lists (closed by reflexivity)
+DEFINITIONAL = ["C02_slice_empty_inputs", "C02_dtypes_without_conversion", "C02_public_dtypes", "C02_public_dtypes_on_domain"]  # the model evaluated on empty lists (closed by reflexivity)
 EXTRA_TARGETS = ["proofs/P_slicing_tie.vo"]  # imported by the generated tie lemmas only
 RULE = ("seeded random meshes as for C01 with more empty inputs (zero vertices / zero faces / everything behind), "
         "int32 face arrays, unreferenced vertices, masks, both ret_face_mapping; each case is also re-sliced, sliced "
@@ -34,7 +34,10 @@ def gen_cases(rng, n, tier):
             cases.append(c)
             if c.get("vdtype", "float64") != "float64" and S.in_domain(c) and not any(i < 0 for f in c["faces"] for i in f):
                 # the same input straight into slice_faces_plane: the kernel keeps the vertex dtype on its uncut returns
-                cases.append(dict(c, kind="kernel_dtype"))
+                cases.append(dict(c, kind="kernel_dtype", buckets=[]))
+    for c in cases:
+        if c["kind"] not in ("unique_bincount", "kernel_dtype"):
+            c["kind"] = S.histogram_kind(c)
     return cases
 
 
@@ -146,7 +149,7 @@ def oracle(c, o):
             return "unique[inverse] != values"
         return None
     if c["kind"] == "kernel_dtype":
-        return None if "raise" not in o else "slice_faces_plane raised %s" % o["raise"]
+        return None  # dtype behaviour of the kernel is judged by the correspondence (incl. the ValueError for unsigned faces)
     if not in_domain(c):
         return None
     main, full = o["main"], o["full"]
@@ -174,7 +177,7 @@ def oracle(c, o):
     if c["vertices"] and all(x < -S.TOL for x in d) and all(sel) and (full["v"] or full["f"] or full["map"]):
         return "mesh wholly behind the plane did not give empty arrays"
     mag = max([Fr(0)] + [abs(x) for v in V for x in v] + [abs(x) for x in ref])  # no absolute floor
-    loose = Fr(1, 10 ** 9)
+    loose = S.REL
     # idempotence
     rs = o.get("reslice")
     if rs is not None:
@@ -223,4 +226,4 @@ def oracle(c, o):
 def classify(c, o, failure, disagrees):
     if c.get("kind") in ("unique_bincount", "kernel_dtype"):
         return None
-    return S.negative_index_class(c, o, failure)
+    return S.negative_index_class(c, o, failure, disagrees)
